@@ -29,6 +29,7 @@ FLOOR = 60
 
 
 def check(ctx):
+    pc.solver_policy(ctx, "R-SPECTRUM")
     N = ctx.normalizer()
     pc.gram_cov(ctx, N, "NF-MIX")
     pc.projectors(ctx, N, "NF-MIX")
